@@ -217,10 +217,14 @@ func c08Client(c *Ctx, r *Report, ci *clientInfo, control bool) map[string]bool 
 		rep("R8.2", okDL, "every Read is preceded in the same iteration by SetReadDeadline(now + positive finite constant)", "", "no-read-deadline", posOfCall(c, ci.read))
 	}
 	// ---- R8.3 ----
-	for _, site := range []struct {
+	type errSite struct {
 		fr   *Frame
 		name string
-	}{{ci.inner, "do"}, {ci.top, "Do"}} {
+	}
+	sites := []errSite{{ci.inner, "do"}, {ci.top, "Do"}}
+	visited := map[*Frame]bool{ci.inner: true, ci.top: true}
+	for si := 0; si < len(sites); si++ {
+		site := sites[si]
 		for _, rs := range site.fr.returns {
 			if len(rs.state) == 0 {
 				continue
@@ -234,10 +238,19 @@ func c08Client(c *Ctx, r *Report, ci *clientInfo, control bool) map[string]bool 
 				continue
 			case strings.HasPrefix(cls, "ClientError"), cls == "ctx.Err", cls == "parseResponseFunc":
 				okc = true
-			case cls == "errors.New" && site.name == "Do":
+			case cls == "errors.New" && site.fr == ci.top:
 				okc = true // immediate precondition errors (nil request, port not set)
 			case cls == "call:do" && site.name == "Do":
 				okc = true // forwarded from do, classified there
+			case strings.HasPrefix(cls, "call:"):
+				// forwarded from a helper of the client that was inlined: classified there
+				if ch := ci.childOfCall(rs.vals[n-1]); ch != nil && ch.fn.Pkg == ci.do.Pkg {
+					okc = true
+					if !visited[ch] {
+						visited[ch] = true
+						sites = append(sites, errSite{ch, ch.fn.Name()})
+					}
+				}
 			}
 			rep("R8.3", okc, fmt.Sprintf("%s returns an error of class %s", site.name, cls), "error value "+describeAV(rs.vals[n-1]), "class:"+cls, p)
 			// a fresh ClientError must have Err set to a non-nil value
@@ -283,7 +296,8 @@ func c08Client(c *Ctx, r *Report, ci *clientInfo, control bool) map[string]bool 
 	}
 	nob, bad := 0, 0
 	for _, o := range ci.an.obligs {
-		if o.fn != ci.do {
+		// do itself and the client's own helpers inlined under it
+		if o.fn != ci.do && !(o.fn.Pkg == ci.do.Pkg && o.fn.Signature.Recv() != nil && types.Identical(deref(o.fn.Signature.Recv().Type()), ci.tn)) {
 			continue
 		}
 		nob++
